@@ -1113,7 +1113,11 @@ def _run_case(case, rec, checks, tmpdir, opened):
                         continue
                     got_v = np.asarray(sig.values, dtype=float)
                     require(got_v.shape == grid.shape, "%s: %d values on %d times", what, len(got_v), len(grid))
-                    if math.sin(en.psi) < 1e-7 and not en.cut:
+                    # (the kernel takes psi = arccos(d . e), whose rounding error is eps / sin(psi): below
+                    # sin(psi) = 3e-4 that is a relative error of psi above 2e-9, which the models'
+                    # dependence on psi turns into more than the 1e-7 compared here - seen: 1.6e-7 at
+                    # psi = 1.6e-5)
+                    if math.sin(en.psi) < 3e-4 and not en.cut:
                         # particle moving along the ray: the polarization (rejection of d from e)
                         # is pure rounding noise in any formula; the pulse itself vanishes there
                         classes.add("aligned")
